@@ -106,3 +106,20 @@ pub fn m_race() {
     let r2 = vsym::join(t2);
     vsym::check(!(r1 && r2));
 }
+use crate::disk_ops::*;
+pub fn m_oplog() {
+    // three records with symbolic non-decreasing timestamps, written by the real writer
+    let mut w = Oplog::get_log_file_append_mode();
+    let t1 = vsym::any_u64(); let t2 = vsym::any_u64(); let t3 = vsym::any_u64();
+    vsym::assume(t1 >= 1 && t1 < t2 && t2 < t3 && t3 < 1000000);
+    Oplog::write_op_log(&mut w, 1, 10, &ReplicateOpp::Update, t1).unwrap();
+    Oplog::write_op_log(&mut w, 1, 11, &ReplicateOpp::Update, t2).unwrap();
+    Oplog::write_op_log(&mut w, 1, 12, &ReplicateOpp::Remove, t3).unwrap();
+    vsym::check(Oplog::last_op_time() == t3);
+    let since = vsym::any_u64();
+    let ops = read_operations_since(since);
+    // oracle: key k present iff its record time >= since
+    vsym::check(!(t1 >= since) || ops.contains_key("1_10"));
+    vsym::check(!(t2 >= since) || ops.contains_key("1_11"));
+    vsym::check(!(t3 >= since) || ops.contains_key("1_12"));
+}
